@@ -759,8 +759,9 @@ class ABIReturnSubroutine:
         # Generate the ABI method object given the subroutine args
         # Add in description if one is set
         for name, val in self.subroutine.annotations.items():
-            # Skip annotations for `return` and `output` in the args list
-            if name in ["return", self.OUTPUT_ARG_NAME]:
+            # Skip annotations for `return` and the `output` keyword argument in the args list
+            # (a positional parameter that happens to be called `output` is an ordinary argument)
+            if name == "return" or name in self.subroutine.output_kwarg:
                 continue
 
             arg_obj = {
